@@ -11,6 +11,10 @@ use std::cmp::Ordering;
 
 #[derive(Clone, Debug)]
 pub struct Shape {
+    /// exact-cutoff family: Some(k): the word has `word` pairwise different characters, the single
+    /// candidate consists of the first k characters of the word followed by different fresh
+    /// characters (so its ratio is exactly 2k/(a+b)); all characters assumed pairwise different
+    pub shared_prefix: Option<usize>,
     /// which string has a two-unit last character: 0 = none, 1 = the word, 2+j = candidate j
     pub wide: usize,
     pub word: usize,
@@ -105,16 +109,16 @@ impl Prop for C18 {
                         continue;
                     }
                     for c in cutoffs(word, cands) {
-                        v.push(Shape { wide: 0, word, cands: cands.clone(), n, cutoff_bits: c });
+                        v.push(Shape { shared_prefix: None, wide: 0, word, cands: cands.clone(), n, cutoff_bits: c });
                         // variants in which one string ends in a character that occupies two
                         // units (string length in units != number of characters)
                         if n >= 1 && total <= 6 {
                             if word > 0 {
-                                v.push(Shape { wide: 1, word, cands: cands.clone(), n, cutoff_bits: c });
+                                v.push(Shape { shared_prefix: None, wide: 1, word, cands: cands.clone(), n, cutoff_bits: c });
                             }
                             for (j, l) in cands.iter().enumerate() {
                                 if *l > 0 {
-                                    v.push(Shape { wide: 2 + j, word, cands: cands.clone(), n, cutoff_bits: c });
+                                    v.push(Shape { shared_prefix: None, wide: 2 + j, word, cands: cands.clone(), n, cutoff_bits: c });
                                 }
                             }
                         }
@@ -122,6 +126,22 @@ impl Prop for C18 {
                 }
             }
         }
+        // longer strings with a cutoff hit exactly (and one ulp off): one candidate whose ratio is 2k/(a+b)
+        let top = match tier {
+            Tier::Quick => 14,
+            Tier::Thorough => 30,
+        };
+        for a in 1..=top {
+            for b in 1..=top {
+                for k in 0..=a.min(b) {
+                    let r = ratio(k, a, b).to_bits();
+                    for c in [r, r.saturating_sub(1), if ratio(k, a, b) < 1.0 { r + 1 } else { r }] {
+                        v.push(Shape { shared_prefix: Some(k), wide: 0, word: a, cands: vec![b], n: 1, cutoff_bits: c });
+                    }
+                }
+            }
+        }
+        v.dedup_by(|x, y| x.shared_prefix.is_some() && x.shared_prefix == y.shared_prefix && x.word == y.word && x.cands == y.cands && x.cutoff_bits == y.cutoff_bits);
         v
     }
     fn run(&self, s: &Shape) -> String {
@@ -142,7 +162,20 @@ impl Prop for C18 {
             v
         };
         let word: Vec<Sym> = mk(s.word, s.wide == 1);
-        let cands: Vec<Vec<Sym>> = s.cands.iter().enumerate().map(|(j, &l)| mk(l, s.wide == 2 + j)).collect();
+        let mut cands: Vec<Vec<Sym>> = s.cands.iter().enumerate().map(|(j, &l)| mk(l, s.wide == 2 + j)).collect();
+        if let Some(k) = s.shared_prefix {
+            // candidate 0 = first k characters of the word + fresh ones; everything else pairwise different
+            let fresh: Vec<Sym> = cands[0][k..].to_vec();
+            let ids: Vec<u32> = word.iter().chain(fresh.iter()).map(|x| x.0).collect();
+            engine::assume(&F::Distinct(ids.clone()));
+            for id in ids {
+                engine::set_hash_class(id, id as u64);
+            }
+            let mut c0: Vec<Sym> = word[..k].to_vec();
+            c0.extend(fresh);
+            cands[0] = c0;
+            engine::witness("exact_cutoff_family_paths");
+        }
         use similar::DiffableStr;
         let wtok: Vec<&SymTxt> = SymTxt::new(&word).tokenize_chars();
         let cand_refs: Vec<&SymTxt> = cands.iter().map(|c| SymTxt::new(c)).collect();
@@ -201,10 +234,11 @@ impl Prop for C18 {
         (s.word + s.cands.iter().sum::<usize>()) as u64
     }
     fn shape_json(&self, s: &Shape) -> Value {
-        json!({"wide_last_char_in": s.wide, "word_len": s.word, "candidate_lens": s.cands, "n": s.n, "cutoff_bits": s.cutoff_bits, "cutoff": f32::from_bits(s.cutoff_bits)})
+        json!({"shared_prefix": s.shared_prefix, "wide_last_char_in": s.wide, "word_len": s.word, "candidate_lens": s.cands, "n": s.n, "cutoff_bits": s.cutoff_bits, "cutoff": f32::from_bits(s.cutoff_bits)})
     }
     fn shape_from(&self, v: &Value) -> Shape {
         Shape {
+            shared_prefix: v["shared_prefix"].as_u64().map(|x| x as usize),
             wide: v["wide_last_char_in"].as_u64().unwrap_or(0) as usize,
             word: v["word_len"].as_u64().unwrap() as usize,
             cands: v["candidate_lens"].as_array().unwrap().iter().map(|x| x.as_u64().unwrap() as usize).collect(),
@@ -226,10 +260,10 @@ impl Prop for C18 {
                 "similar::TextDiff::{from_slices, ratio}, similar::get_diff_ratio, capture_diff_deadline(Myers) + IdentifyDistinct not reached (<100 tokens)",
                 "Ord/Eq/Hash of the string type (SymTxt, decided by z3)",
             ],
-            bounds: format!("word of 0..={l} characters, 0..={c} candidates of 0..={l} characters each (empty and duplicate candidates included; all characters symbolic; for up to 6 characters in total also variants in which the last character of the word or of one candidate occupies two units, so that string length and character count differ), n in 0..=3 (at most {t} characters in word and candidates together), cutoff in the finite set of f32 values at which the result can change: every attainable ratio 2k/(a+b), each also one ulp below and above, plus 0, 0.5 and 1", l = match tier { Tier::Quick => 3, Tier::Thorough => 3 }, c = match tier { Tier::Quick => 2, Tier::Thorough => 3 }, t = match tier { Tier::Quick => 7, Tier::Thorough => 9 }),
+            bounds: format!("word of 0..={l} characters, 0..={c} candidates of 0..={l} characters each (empty and duplicate candidates included; all characters symbolic; for up to 6 characters in total also variants in which the last character of the word or of one candidate occupies two units, so that string length and character count differ), n in 0..=3 (at most {t} characters in word and candidates together), plus a family of longer strings (word of up to 14 / 30 pairwise different characters, one candidate sharing exactly its first k characters, cutoff = the candidate's ratio 2k/(a+b) and one ulp below / above); cutoff in the finite set of f32 values at which the result can change: every attainable ratio 2k/(a+b), each also one ulp below and above, plus 0, 0.5 and 1", l = match tier { Tier::Quick => 3, Tier::Thorough => 3 }, c = match tier { Tier::Quick => 2, Tier::Thorough => 3 }, t = match tier { Tier::Quick => 7, Tier::Thorough => 9 }),
             outside: "longer words / more candidates; cutoffs outside [0,1]; NaN; the f32 quantisation regime of very long strings; str/[u8] tokenize_chars (C06)".into(),
             assumptions: vec!["the reference ranking is computed by the harness from a solver-decided LCS and the same f32 formula".into(), "among candidates with equal content the order is unspecified: entries are compared by content, and each returned reference must be a distinct candidate passed in".into()],
-            required_witnesses: vec!["paths_with_a_candidate_below_the_cutoff", "paths_with_two_or_more_matches", "paths_with_a_ratio_tie", "paths_with_a_ratio_exactly_at_the_cutoff", "paths_truncated_by_n"],
+            required_witnesses: vec!["exact_cutoff_family_paths", "paths_with_a_candidate_below_the_cutoff", "paths_with_two_or_more_matches", "paths_with_a_ratio_tie", "paths_with_a_ratio_exactly_at_the_cutoff", "paths_truncated_by_n"],
             rule: "one state = one explored path (equality/order pattern of all characters) for one (lengths, n, cutoff) shape".into(),
         }
     }
